@@ -12,8 +12,8 @@ import (
 
 	"github.com/named-data/ndnd/fw/core"
 	"github.com/named-data/ndnd/fw/defn"
-	"github.com/named-data/ndnd/fw/face"
 	"github.com/named-data/ndnd/fw/dispatch"
+	"github.com/named-data/ndnd/fw/face"
 	"github.com/named-data/ndnd/fw/fw"
 	"github.com/named-data/ndnd/fw/table"
 	enc "github.com/named-data/ndnd/std/encoding"
@@ -139,12 +139,12 @@ type faceM struct {
 
 type inRec struct {
 	superseded  map[uint32]bool // nonces of this face's earlier Interests that a certainly accepted retransmission replaced
-	nonceUnsure bool // a later Interest from this face may or may not have replaced the nonce
-	nonce     uint32
-	tokens    [][]byte
-	mustUntil time.Duration // strictly before this instant the record is certainly held
-	mayUntil  time.Duration
-	clean     bool
+	nonceUnsure bool            // a later Interest from this face may or may not have replaced the nonce
+	nonce       uint32
+	tokens      [][]byte
+	mustUntil   time.Duration // strictly before this instant the record is certainly held
+	mayUntil    time.Duration
+	clean       bool
 }
 
 type outRec struct {
@@ -197,7 +197,7 @@ type model struct {
 	csCap      int
 	seenNonce  map[uint32]bool
 	firstSeen  map[string]time.Duration // name|nonce -> first time an Interest carried it
-	dead       map[string][]deadRec // name|nonce -> windows in which it is surely in the dead nonce list
+	dead       map[string][]deadRec     // name|nonce -> windows in which it is surely in the dead nonce list
 	regions    []string
 	lifeMax    time.Duration
 	lastEmitTo map[string][]byte // face|name -> token of the latest upstream copy (for "echo")
@@ -291,20 +291,20 @@ func (m *model) csAcceptable(name string, cbp, mbf bool, now time.Duration) (exa
 // ------------------------------------------------------------------ run
 
 type runner struct {
-	ctx   *kit.Ctx
-	sc    *kit.Scenario[Config, Op]
-	m     *model
-	th    *fw.Thread
-	pitcs *table.PitCsTree
-	sink  []emission
-	start time.Time
-	res   *kit.Result
-	viol  []*kit.Violation
-	step  int
-	signer ndn.Signer
+	ctx       *kit.Ctx
+	sc        *kit.Scenario[Config, Op]
+	m         *model
+	th        *fw.Thread
+	pitcs     *table.PitCsTree
+	sink      []emission
+	start     time.Time
+	res       *kit.Result
+	viol      []*kit.Violation
+	step      int
+	signer    ndn.Signer
 	dataCache map[string][]byte
-	tokIdx map[string]int
-	stats struct{ satisfied, forwarded, dropped, expired, evicted, mbfStale, lhOffered int }
+	tokIdx    map[string]int
+	stats     struct{ satisfied, forwarded, dropped, expired, evicted, mbfStale, lhOffered int }
 }
 
 func (r *runner) now() time.Duration { return time.Since(r.start) }
@@ -370,7 +370,9 @@ func (r *runner) setup() {
 	table.Configure()
 	fw.Configure()
 	table.CreateFIBTable(c.Fib)
-	dispatch.FaceDispatch.Range(func(k, _ any) bool { dispatch.FaceDispatch.Delete(k); return true })
+	for id := uint64(0); id < 1200; id++ { // every face id a scenario can have used (only the exported API, so that the table's representation can change)
+		dispatch.RemoveFace(id)
+	}
 
 	m := &model{faces: map[uint64]*faceM{}, fibNH: map[string]map[uint64]uint64{}, strat: map[string]string{},
 		pit: map[pitKey]*pitEnt{}, cs: map[string]*csEnt{}, csCap: c.CsCap, seenNonce: map[uint32]bool{},
